@@ -40,7 +40,8 @@ def shunting_yard(expr_nodes: list[ExprNode]) -> list[ExprNode]:
             current_precedence = OPERATOR_PRECEDENCE[expr.token.value] if isinstance(expr, BinOp) else 2
 
             while (
-                len(operator_stack) > 0
+                isinstance(expr, BinOp)
+                and len(operator_stack) > 0
                 and OPERATOR_PRECEDENCE[operator_stack[-1].token.value] <= current_precedence
                 and operator_stack[-1].token.value != "("
             ):
